@@ -16,10 +16,14 @@ from .. import neutron_c03 as ng
 from ..refcalc_neutron import OUTPUTS
 
 PROPERTY = "C17"
-RULE = ("1-6 materials drawn (with repeats) from 1-4 generated compounds (flat dicts or rendered derivation trees over "
+RULE = ("1-6 materials drawn (with repeats) from 1-4 generated compounds (flat dicts or rendered derivation trees of nesting "
+        "depth up to 3, several fragments with parenthesised groups and counts != 1, over "
         "atoms with neutron data; energy dependent atoms 5/17 of the atom draws), weights = 0 | 1..12 | 1e-9..1e6 "
         "(all-zero vectors included, integer and float arrays), density = 0 | (0, 25], wavelength scalar (float, int, np.int64) / length-1 / "
-        "length-n list, tuple or array in [0.05, 50] A, also integer-valued lists/tuples/int32/int64 arrays. oracle = neutron_sld({atom: sum_i w_i n_ik}, density, wavelength): "
+        "length-n list, tuple or array in [0.05, 50] A, also integer-valued lists/tuples/int32/int64 arrays. oracle = the direct calculation done two ways that must agree (bucket "
+        "c17:direct:arithmetic-vs-composition): (a) neutron_sld of the library's own formula arithmetic sum_i w_i*material_i, "
+        "(b) neutron_sld({atom: sum_i w_i n_ik}) with the composition of every material taken from this module's tree/dict "
+        "semantics, not from Formula.atoms; calculator vs both: "
         "three outputs at rel 1e-10 + 2e-13 x operand scale; scalar output for scalar wavelength, wavelength's shape "
         "otherwise; zero total weight or zero density -> all three equal 0. Then 1-3 further calls of the SAME "
         "calculator with the SAME weights ndarray modified in place (set an element, scale, zero one/all) or with only "
@@ -80,13 +84,14 @@ def judge(call, mats, comps, got, weights, rho, arg, shape, lams, case):
     w = [float(x) for x in weights]
     if not (isinstance(got, tuple) and len(got) == 3):
         raise Violation("c17:result-form", "%s: calculator returned %r" % (call, got), case)
-    # the weighted sum, atom by atom
-    total, objs = {}, {}
-    for m, cmp_, wi in zip(mats, comps, w):
-        for atom, n in m.atoms.items():
-            objs[atom] = objs.get(atom, 0.0) + wi * n
+    # (b) the weighted sum, atom by atom, from this module's own composition of every material
+    # (derivation tree / dict), never from Formula.atoms
+    from ..atoms import key_to_atom
+    total = {}
+    for cmp_, wi in zip(comps, w):
         for k, n in cmp_.items():
             total[k] = total.get(k, 0.0) + wi * n
+    objs = dict((key_to_atom(E["table"], k), n) for k, n in total.items())
     mass = sum(n * R.atom(k)[0] for k, n in total.items())
     seq = "" if call == "call 1" else ":sequence"
     if mass == 0 or rho == 0:
@@ -105,6 +110,23 @@ def judge(call, mats, comps, got, weights, rho, arg, shape, lams, case):
         floors.append(f)
         clips = clips or ref["sigma_i"] <= f["sigma_i"]
     direct = pt.neutron_sld(objs, density=rho, wavelength=arg)
+    # (a) the statement of the property: the library's own formula arithmetic sum_i w_i * material_i
+    fsum = None
+    for m, wi in zip(mats, weights.tolist()):
+        term = wi * m
+        fsum = term if fsum is None else fsum + term
+    arith = pt.neutron_sld(fsum, density=rho, wavelength=arg)
+    for o, a_, d in zip(SLD, arith, direct):
+        ng.check_shape("c17:direct", o, a_, shape, case)
+        aa = np.asarray(a_, dtype=float).reshape(-1)
+        dd = np.asarray(d, dtype=float).reshape(-1)
+        for i in range(len(lams)):
+            x, y = float(aa[i]), float(dd[i])
+            if not abs(x - y) <= 1e-10 * max(abs(x), abs(y)) + 2.0 * floors[i][o]:
+                raise Violation("c17:direct:arithmetic-vs-composition",
+                                "%s: %s: neutron_sld(sum w_i*material_i = %s) gives %r, neutron_sld of the merged "
+                                "composition {atom: sum w_i n_i} gives %r at %r A (weights %r, density %r)"
+                                % (call, o, fsum, x, y, lams[i], w, rho), case)
     for o, g, d in zip(SLD, got, direct):
         ng.check_shape("c17", o, g, shape, case)
         gg = np.asarray(g, dtype=float).reshape(-1)
@@ -181,7 +203,8 @@ def check_composite(ctx, v):
 
 def strat():
     ng.env()
-    small = st.one_of(ng.flat_compound(max_atoms=4), ng.tree_compound(depth=1, max_groups=2, max_atoms=3))
+    small = st.one_of(ng.flat_compound(max_atoms=4), ng.tree_compound(depth=1, max_groups=2, max_atoms=3),
+                      ng.tree_compound(depth=2, max_groups=3, max_atoms=3), ng.tree_compound(depth=3, max_groups=3, max_atoms=2))
     weight = st.one_of(st.integers(1, 12), st.integers(1, 12), st.integers(1, 12),
                        st.floats(-9, 6).map(lambda x: float("%.6g" % 10 ** x)),
                        st.floats(-9, 6).map(lambda x: float("%.6g" % 10 ** x)),
